@@ -887,6 +887,7 @@ func (m *Model) Apply(op *Op) Result {
 		for _, i := range sel {
 			var r Result
 			m.setRelOne(&r, i, op.T)
+			res.Touched = append(res.Touched, r.Touched...)
 			for _, ev := range r.Events {
 				if ev.Pre {
 					pre = append(pre, ev)
